@@ -71,6 +71,12 @@ func Mk() func() int { return F }
 
 const C = 5
 
+const NC Named = 1
+
+const IdxC = 2
+
+var KeyV = "kv"
+
 func F() int { return 11 }
 
 func Gen[T any]() T {
@@ -114,6 +120,11 @@ func c13Bases() []c13Expr {
 		{name: "map-lit", expr: "map[string]int{\"a\": 1}", typ: "map[string]int"},
 		{name: "anon-struct-lit", expr: "struct{ X int }{1}", typ: "struct{ X int }"},
 		{name: "nested-lit", expr: "[]S{{A: 1}, {A: 2}}", typ: "[]Q.S"},
+		{name: "map-lit-const-keys", expr: "map[Named]string{NC: \"one\", Named(C): \"five\"}", typ: "map[Q.Named]string"},
+		{name: "map-lit-var-keys", expr: "map[string]int{KeyV: V, Str: C}", typ: "map[string]int"},
+		{name: "array-lit-const-index", expr: "[4]string{IdxC: \"two\", 0: \"zero\"}", typ: "[4]string"},
+		{name: "slice-lit-const-index", expr: "[]int{IdxC: V, C: 9}", typ: "[]int"},
+		{name: "struct-lit-nested-keyed", expr: "struct{ M map[string]S }{M: map[string]S{Str: {A: V}}}", typ: "struct{ M map[string]Q.S }"},
 		{name: "conv-named", expr: "Named(3)", typ: "Q.Named", num: true},
 		{name: "conv-float", expr: "float64(C)", typ: "float64", num: true},
 		{name: "conv-nil-ptr", expr: "(*S)(nil)", typ: "*Q.S"},
